@@ -209,6 +209,7 @@ def lemma_transport(ctx, table):
     """table: {(d, frozenset R, k): frozenset residues} exported by TLC for k <= 3d+1."""
     from pydsdl import BitLengthSet
     n = 0
+    skipped = 0
     rng = ctx.rng
     keys = sorted({(d, tuple(sorted(R))) for (d, R, k) in table})
     for d, Rt in keys:
@@ -216,6 +217,10 @@ def lemma_transport(ctx, table):
         lifts = [set(R), {r + d * rng.randrange(0, 5) for r in R}]
         for K in rng.sample(BIG_K, 3 if ctx.tier == "quick" else len(BIG_K)):
             e = equiv_k(K, d)
+            import math
+            if math.comb(len(R) + e - 1, e) > 20000:      # the implementation enumerates this many tuples: keep the replay cheap
+                skipped += 1
+                continue
             want = table[(d, R, e)]
             want_rng = frozenset().union(*[table[(d, R, j)] for j in range(e + 1)])
             for L in lifts:
@@ -246,6 +251,7 @@ def lemma_transport(ctx, table):
                     ctx.nontriv("lt:%d:%s:%d" % (d, Rt, K % d))
     ctx.count(n)
     ctx.traces += n
+    ctx.extra["lemma_transport_skipped_as_too_costly"] = skipped
     return n
 
 # ---- B': trees with huge counts, verdict by TLC -----------------------------------------------------------------
